@@ -7,9 +7,18 @@ from outsourcer import CodeBuilder, Code, Val
 from . import expressions as ex
 from . import parser
 from .expressions import TEXT, POS, Ref, visit
+from .expressions.base import Expression
 
 
 def generate_source_code(docstring, parsed):
+    # The rules and classes of this grammar and of the grammars it extends: a
+    # call of one of them is never a call of a built-in constructor like Seq.
+    _user_names.clear()
+    ancestor = parsed
+    while ancestor is not None:
+        _user_names.update(x.name for x in ancestor.body if hasattr(x, 'name'))
+        ancestor = ancestor.extends
+
     # Convert the parse tree into a list of parsing expressions.
     nodes = parser.transform(parsed.body, _create_parsing_expression)
 
@@ -344,6 +353,20 @@ def _update_rule_references(rules, extends):
     visit(rules, check_refs)
 
 
+_user_names = set()
+
+
+def _is_constructor(name):
+    # "Opt(x)", "Sep(x, y, allow_trailer=True)", ...: the documented constructor
+    # forms, unless the grammar defines a rule or class of that name.
+    constructor = getattr(ex, name, None)
+    return (
+        name not in _user_names
+        and isinstance(constructor, type)
+        and issubclass(constructor, Expression)
+    ) or (name not in _user_names and name in ('Left', 'Right', 'Some'))
+
+
 def _create_parsing_expression(tree):
     if isinstance(tree, parser.StringLiteral):
         ignore_case = tree.value.endswith(('i', 'I'))
@@ -398,7 +421,7 @@ def _create_parsing_expression(tree):
 
     if isinstance(tree, parser.Postfix) and isinstance(tree.operator, parser.ArgList):
         left, args = tree.left, tree.operator.args
-        if isinstance(left, ex.Ref) and hasattr(ex, left.name):
+        if isinstance(left, ex.Ref) and _is_constructor(left.name):
             def unwrap(x):
                 return eval(x.source_code) if isinstance(x, ex.PythonExpression) else x
             return getattr(ex, left.name)(
